@@ -11,6 +11,8 @@ trap 'rm -rf "$SCR"' EXIT
 rsync -a --exclude .git --exclude evidence "$HERE/" "$SCR/verif/"; mkdir -p "$SCR/verif/evidence" "$SCR/out"
 one() {
   d="$1"; name="$(basename "$d")"; id="${name%%-*}"
+  alt="$(python3 -c "import json,sys; print(json.load(open(sys.argv[1])).get('check_property',''))" "$d/meta.json" 2>/dev/null)"
+  [ -n "$alt" ] && id="$alt"   # a change kept under one property but reported by another property's check
   wt="$SCR/wt-$name"
   git -C /repo worktree add --detach "$wt" HEAD >/dev/null 2>&1 || { echo "$name worktree-failed"; return; }
   if git -C "$wt" apply "$d/patch.diff" 2>/dev/null; then
